@@ -50,7 +50,7 @@ func isCLI(tier string, idx int) bool {
 var Check = &run.Check{
 	ID:    "C12",
 	Level: "exploration",
-	Rule: "case = generated Spring project of 1-6 classes with planted ground truth: controllers (@RestController/@Controller; class-level @RequestMapping absent / bare / (\"/p\") / (value = \"/p\") / constant, " +
+	Rule: "case = generated Spring project of 1-6 classes with planted ground truth: controllers (@RestController/@Controller; class-level @RequestMapping absent / bare / (\"/p\") / (value = \"/p\") / constant, literal base paths also ending in '/' with method paths with and without leading '/', " +
 		"written before or after the controller annotation, other class annotations in between), members in any order (handlers with Get/Post/Put/Delete/RequestMapping in bare, shorthand, value=, value+method=, method= forms, " +
 		"other annotations before/after the mapping, 0-4 parameters with the @RequestBody parameter at any position; non-handler methods also as first member; annotated fields; constructors), and classes without controller " +
 		"annotation (@Service/@Component/@Repository/@Configuration/Feign interface/plain/abstract base/DTO) carrying the same method annotations and sometimes a class-level mapping. " +
@@ -61,7 +61,7 @@ var Check = &run.Check{
 	Assumptions: []string{
 		"every generated file is accepted by coca's own Java parser (rejects are counted as inconclusive)",
 		"HttpMethod is asserted only where an annotation names exactly one verb (Get/Post/Put/DeleteMapping, @RequestMapping with method = RequestMethod.X or statically imported X); the verb of @RequestMapping without method= is not asserted",
-		"Uri is asserted as <own base path><method path> only where both are literals written in the file (no class-level mapping = empty base); bare mappings, method=-only mappings, bare class-level @RequestMapping and constant references leave the Uri unasserted; paths always start with '/', base paths never end in '/', path= / several paths / several verbs are not generated",
+		"Uri is asserted as <own base path><method path> only where both are literals written in the file (no class-level mapping = empty base); bare mappings, method=-only mappings, bare class-level @RequestMapping and constant references leave the Uri unasserted; the expectation is the plain concatenation of the two written strings, also for base paths ending in '/' (generated in shorthand and value= form; their handlers carry method paths with and without leading '/'); path= / several paths / several verbs are not generated",
 		"RequestBodyClass is asserted as the declared type text of the @RequestBody parameter (simple or qualified class names only), and as empty when no parameter carries @RequestBody",
 		"MethodParams, ResponseStatus and the order of the list are not asserted; the fields left unasserted above are still compared between the analyses of the same class alone and together with others (independence relation)",
 		"one top-level type per file, no nested classes, no overloaded handlers; class and file name coincide (Java convention), so a class name taken from the file name is not distinguishable",
@@ -343,6 +343,14 @@ func runCase(c *run.Ctx, o *run.Outcome) {
 			if cl.BaseDetermined() {
 				bases[cl.OwnBase()] = true
 			}
+			if cl.BaseTrailingSlash() {
+				o.Count("controllers_with_base_path_ending_in_slash", 1)
+				if cl.MarkerFirst {
+					o.Seen("trailing_slash_base_shapes", cl.ClassMap+"/controller-annotation-first")
+				} else {
+					o.Seen("trailing_slash_base_shapes", cl.ClassMap+"/class-mapping-first")
+				}
+			}
 		} else {
 			o.Count("classes_without_controller_annotation", 1)
 			o.Seen("non_controller_roles", cl.Role)
@@ -357,6 +365,13 @@ func runCase(c *run.Ctx, o *run.Outcome) {
 				o.Seen("body_positions", m.BodyShape())
 				if m.BodyType() != "" {
 					nBody++
+				}
+				if cl.BaseTrailingSlash() && m.Mapping.PathDetermined() {
+					if strings.HasPrefix(m.Mapping.Path, "/") {
+						o.Count("handlers_under_slash_base_with_leading_slash_path", 1)
+					} else if m.Mapping.Path != "" {
+						o.Count("handlers_under_slash_base_without_leading_slash_path", 1)
+					}
 				}
 				if len(m.AnnosAfter) > 0 {
 					o.Count("handlers_with_other_annotation_after_mapping", 1)
